@@ -276,6 +276,9 @@ func RunOne(t *testing.T, wl *Workload, seed uint64, replay []int32, trace bool)
 	out.Quiescent = res.Quiescent
 	out.SimTimeNs = int64(res.SimTime)
 	out.ClockJumps = res.ClockJumps
+	for k, v := range res.Preempt {
+		out.Probes["preempted-before-"+k] += v
+	}
 	if res.Strays > 0 {
 		out.HarnessErr = fmt.Sprintf("%d stray goroutine(s) entered the simulator: %s", res.Strays, res.StrayInfo)
 	}
